@@ -367,6 +367,7 @@ def run(chk: core.Check):
         else:
             judged.append(ln)
     rej = trace_validate(chk, judged)
+    core.canary(chk, judged, trace_validate, what="Trace_Pattern", skip=set(rej))
     chk.traces_accepted += len(judged) - len(rej)
     chk.evaluations += len(judged)
     for i in rej[:25]:
